@@ -227,7 +227,11 @@ func TestC01(t *testing.T) {
 		sc.bfs(t, rep, c.name)
 	}
 	if !replay {
-		runTSet(t, rep, c01TScenarios(), 2, 7000, func(v string) bool { return !strings.HasPrefix(v, "event-log") && v != "concurrent-callbacks" })
+		tb := 2
+		if thorough() {
+			tb = 3
+		}
+		runTSet(t, rep, c01TScenarios(), tb, 7000, func(v string) bool { return !strings.HasPrefix(v, "event-log") && v != "concurrent-callbacks" })
 	}
 	rep.Distinct = rep.States
 	rep.Evaluations = rep.Transitions
